@@ -7,6 +7,7 @@
 #include <cmath>
 #include <cstdio>
 #include <cstdlib>
+#include <algorithm>
 #include <iostream>
 #include <mutex>
 #include <random>
@@ -104,6 +105,89 @@ static void sc_shared_optional(int n, long ops)
       ++g_checks;
     }
   }
+}
+
+// Linearizability of EMPTY results on a SharedOptionalVariable.  Every call is stamped (before / after) with a ticket from
+// one sequentially consistent counter.  An empty consume C is impossible in every sequential ordering of the calls when
+// some store S had completed before C began (S.end < C.start) and no other consume C' could have taken S's value first
+// (none with C'.end > S.start and C'.start < C.end): the optional then holds a value (S's or a later one) throughout C.
+// Sound (never fires on a correct implementation), not complete.
+static void sc_shared_optional_lin(int n, long ops)
+{
+  SharedOptionalVariable<long> so;
+  int producers = std::max(1, n / 2 + n % 2), consumers = std::max(1, n / 2);
+  std::atomic<int> live{producers};
+  std::atomic<bool> capped{false};
+  std::atomic<long> clk{1};
+  struct Ev {long a, b; bool has;};
+  std::vector<std::vector<Ev>> st(producers), co(consumers);
+  const size_t CAP = 1500000;
+  std::vector<std::thread> th;
+  for (int p = 0; p < producers; ++p) {
+    th.emplace_back([&, p] {
+        st[p].reserve(ops / producers + 1);
+        for (long k = 1; k <= ops / producers; ++k) {
+          long a = clk.fetch_add(1);
+          so.store(k * 16 + p);
+          long b = clk.fetch_add(1);
+          st[p].push_back(Ev{a, b, true});
+          if (k % 7 == 0) {std::this_thread::yield();}
+        }
+        --live;
+      });
+  }
+  for (int c = 0; c < consumers; ++c) {
+    th.emplace_back([&, c] {
+        co[c].reserve(CAP / 4);
+        while (live.load() > 0 && !capped.load()) {
+          long a = clk.fetch_add(1);
+          auto v = so.consume();
+          long b = clk.fetch_add(1);
+          co[c].push_back(Ev{a, b, v.has_value()});
+          if (co[c].size() >= CAP) {capped.store(true);}
+        }
+      });
+  }
+  for (auto & t : th) {t.join();}
+  // stores sorted by completion; prefix maximum of their start tickets
+  std::vector<Ev> stores;
+  for (auto & v : st) {stores.insert(stores.end(), v.begin(), v.end());}
+  std::sort(stores.begin(), stores.end(), [](const Ev & x, const Ev & y) {return x.b < y.b;});
+  std::vector<long> best(stores.size());
+  for (size_t i = 0; i < stores.size(); ++i) {best[i] = std::max(stores[i].a, i ? best[i - 1] : 0L);}
+  long impossible = 0, empties = 0;
+  for (int c = 0; c < consumers && !impossible; ++c) {
+    for (size_t i = 0; i < co[c].size(); ++i) {
+      const Ev & C = co[c][i];
+      if (C.has) {continue;}
+      ++empties;
+      // latest-starting store among those completed before C began
+      size_t lo = 0, hi = stores.size();
+      while (lo < hi) {size_t mid = (lo + hi) / 2; if (stores[mid].b < C.a) {lo = mid + 1;} else {hi = mid;}}
+      if (lo == 0) {continue;}
+      long sstart = best[lo - 1];
+      bool taken_maybe = false;
+      for (int j = 0; j < consumers && !taken_maybe; ++j) {
+        const std::vector<Ev> & L = co[j];
+        // last consume of thread j that started before C ended (other than C itself)
+        size_t l2 = 0, h2 = L.size();
+        while (l2 < h2) {size_t mid = (l2 + h2) / 2; if (L[mid].a < C.b) {l2 = mid + 1;} else {h2 = mid;}}
+        while (l2 > 0) {
+          const Ev & D = L[l2 - 1];
+          if (j == c && D.a == C.a) {--l2; continue;}
+          if (D.b > sstart) {taken_maybe = true;}
+          break;
+        }
+      }
+      ++g_checks;
+      if (!taken_maybe) {++impossible; break;}
+    }
+  }
+  if (impossible) {
+    fail("SharedOptionalVariable::consume returned nothing although a completed store's value was pending and no other "
+         "consumer could have taken it (no sequential ordering of the calls produces this)");
+  }
+  (void)empties;
 }
 
 // 1 writer (update / reset) + R readers (getAverage / getVariance / isAvailable)
@@ -283,6 +367,7 @@ int main(int argc, char ** argv)
   long ops = std::atol(argv[3]);
   if (sc == "shared_variable") {sc_shared_variable(readers, ops);} else if (sc == "shared_optional") {
     sc_shared_optional(readers, ops);
+  } else if (sc == "shared_optional_lin") {sc_shared_optional_lin(readers, ops);
   } else if (sc == "online_stats") {sc_online_stats(readers, ops);} else if (sc == "checkup_equal") {
     sc_checkup<CheckupEqualTo<double>>(readers, ops, 0);
   } else if (sc == "checkup_greater") {sc_checkup<CheckupGreaterThan<double>>(readers, ops, 1);} else if (sc == "checkup_lower") {
